@@ -111,6 +111,61 @@ def check_table(job):
     return out
 
 
+def check_run(job):
+    """the same table through the workflow's entry point: workbook in, excel_ui.run(), output workbook out"""
+    idx, rows, expected = job
+    import shutil
+    variant = idx % 5
+    d = os.path.join(W.dir, 'c11run_%d' % idx)
+    os.makedirs(d, exist_ok=True)
+    out = {'idx': idx, 'labels': [], 'obs': []}
+    try:
+        for f in os.listdir(W.dir):
+            if f.endswith('.fcs') and not os.path.exists(os.path.join(d, f)):
+                os.symlink(os.path.join(W.dir, f), os.path.join(d, f))
+        bt = W.beads_table('none')          # reference rows incl. beads of another instrument / amplifier / voltage
+        t = W.samples_table(rows, variant=variant)
+        inp = os.path.join(d, 'experiment.xlsx')
+        with pd.ExcelWriter(inp, engine='openpyxl') as wr:
+            W.instruments.reset_index().to_excel(wr, sheet_name='Instruments', index=False)
+            bt.reset_index().rename(columns={'index': 'ID'}).to_excel(wr, sheet_name='Beads', index=False)
+            t.reset_index().rename(columns={'index': 'ID'}).to_excel(wr, sheet_name='Samples', index=False)
+        np.random.seed(3)
+        try:
+            with warnings.catch_warnings():
+                warnings.simplefilter('ignore')
+                FlowCal.excel_ui.run(input_path=inp, verbose=False, plot=False, hist_sheet=False)
+        except Exception as e:  # noqa
+            out['labels'].append(('run/aborted/' + type(e).__name__, -1))
+            out['obs'] = ['run aborted: %s: %s' % (type(e).__name__, str(e)[:100])]
+            return out
+        o = pd.read_excel(os.path.join(d, 'experiment_output.xlsx'), sheet_name='Samples', engine='openpyxl')
+        if [str(x) for x in o['ID']] != ['S%d' % (i + 1) for i in range(len(rows))]:
+            out['labels'].append(('run/keys-or-order', -1))
+            return out
+        for i, exp in enumerate(expected):
+            note = o.loc[i, 'Analysis Notes']
+            note = '' if pd.isnull(note) else str(note)
+            if note.startswith('ERROR:'):
+                kind = xw.classify_error(note)
+                out['obs'].append('err:' + kind)
+                if exp['k'] != 'err':
+                    out['labels'].append(('run/healthy-row-reported-as-error/' + kind, i))
+                elif kind not in xw.ACCEPT.get(exp['err'], {exp['err']}):
+                    out['labels'].append(('run/wrong-error/%s-for-%s' % (kind, exp['err']), i))
+                if not pd.isnull(o.loc[i, 'Number of Events']):
+                    out['labels'].append(('run/error-row-with-statistics', i))
+            else:
+                out['obs'].append('ok:%s events' % o.loc[i, 'Number of Events'])
+                if exp['k'] != 'ok':
+                    out['labels'].append(('run/faulty-row-processed/' + exp['err'], i))
+                elif pd.isnull(o.loc[i, 'Number of Events']):
+                    out['labels'].append(('run/healthy-row-without-count', i))
+    finally:
+        shutil.rmtree(d, ignore_errors=True)
+    return out
+
+
 def check_beads_table(job):
     idx, faults = job
     t_full = None
@@ -234,9 +289,20 @@ def main(chk, replay=None):
                                                 [(a, b) for a in ['none'] + BFAULTS for b in ['none'] + BFAULTS])]
     if chk.quick:
         bjobs = [j for j in bjobs if len(j[1]) < 2 or (j[0] + chk.seed) % 5 == 0]
+    # through run(): every one-row table (each row kind once) and, in thorough, the two-row tables as well; only
+    # tables whose beads rows are the reference ones (no beads fault injected)
+    rjobs = [j for j in [(i, tables[i][0], tables[i][1]) for i in range(len(tables))]
+             if table_faults(j[1], j[0]) == 'none' and (len(j[1]) == 1 or (not chk.quick and len(j[1]) == 2))]
     with mp.get_context('fork').Pool(min(16, os.cpu_count() or 1)) as pool:
         outs = pool.map(check_table, jobs, chunksize=2)
         bouts = pool.map(check_beads_table, bjobs, chunksize=1)
+        routs = pool.map(check_run, rjobs, chunksize=1)
+    for (i, rows, exp), o in zip(rjobs, routs):
+        chk.case(('run', json.dumps(rows, sort_keys=True)), nontrivial=any(e['k'] == 'err' for e in exp))
+        chk.traces += 1
+        for lab, r in o['labels']:
+            chk.violation('C11/samples/' + lab, {'table': rows, 'row': r, 'through': 'excel_ui.run'},
+                          [e['k'] + ':' + e['err'] for e in exp], o['obs'])
     neg = False
     for (i, rows, exp), o in zip(jobs, outs):
         chk.case(('t', json.dumps(rows, sort_keys=True)), nontrivial=any(e['k'] == 'err' for e in exp),
